@@ -499,6 +499,64 @@ theorem iam_yield_stops_at_view_counterexample :
     "GetIamPolicy" ∉ keys (mixinApiMethods cexYaml (cexSubApi.seenBy ⟨[], ["GetBook", "GetIamPolicy"]⟩)) := by
   decide
 
+/-! ## Selective generation: an API-defined IAM RPC counts whether it is generated public or internal
+
+`_has_iam_overrides` asks `m_name in s.methods` of the services `API.build` left: an RPC generated as INTERNAL
+(`generate_omitted_as_internal`) is still there — the mixins yield to it (its transport property and stub keep the
+name `set_iam_policy`; a same-named mixin stub would shadow it) —, an OMITTED one is not. -/
+
+theorem generated_ignores_internal (s : SrcSvc) : s.publicised.generated = s.generated := by
+  obtain ⟨sub, ms⟩ := s
+  simp only [SrcSvc.generated, SrcSvc.publicised, Svc.mk.injEq, true_and]
+  induction ms with
+  | nil => rfl
+  | cons m ms ih =>
+    obtain ⟨n, g⟩ := m
+    cases g <;> simp_all [Gen.publicised]
+
+theorem api_generated_ignores_internal (a : SrcApi) : a.publicised.generated = a.generated := by
+  simp only [SrcApi.generated, SrcApi.publicised, List.map_map, FullApi.mk.injEq]
+  apply List.map_congr_left
+  intro s _
+  exact generated_ignores_internal s
+
+/-- **`is_internal` does not matter**: whether the API's RPCs are generated public or internal, every client of the
+library gets the same `_has_iam_overrides` and the same mixin RPCs. -/
+theorem iam_overrides_ignores_internal (y : Yaml) (a : SrcApi) (v : List String) :
+    iamOverrides y (a.publicised.generated.view v) = iamOverrides y (a.generated.view v) ∧
+      mixinApiMethods y (a.publicised.generated.view v) = mixinApiMethods y (a.generated.view v) := by
+  rw [api_generated_ignores_internal]
+  exact ⟨rfl, rfl⟩
+
+/-- **IAM mixins yield to a same-named RPC that the API defines and the library carries as INTERNAL** (in a service
+of the client's view), exactly as to a public one. -/
+theorem iam_yields_to_internal_rpc (y : Yaml) (a : SrcApi) (s s' : SrcSvc) (m : String)
+    (hs' : s' ∈ a.services) (hp : s.subpackage <+: s'.subpackage) (hm : (m, Gen.internal) ∈ s'.methods)
+    (hiam : m ∈ MixinApi.iam.methods) :
+    m ∉ keys (mixinApiMethods y (a.generated.seenBy s.generated)) := by
+  apply iam_yields_within_view y a.generated s.generated s'.generated m
+  · exact List.mem_map_of_mem hs'
+  · exact hp
+  · simp only [SrcSvc.generated, List.mem_map, List.mem_filter]
+    exact ⟨(m, Gen.internal), ⟨hm, rfl⟩, rfl⟩
+  · exact hiam
+
+def selLibrary (g : Gen) : SrcSvc := ⟨[], [("GetBook", .pub), ("SetIamPolicy", g)]⟩
+
+example : selLibrary .internal ∈ (⟨[selLibrary .internal]⟩ : SrcApi).services ∧
+    (selLibrary .internal).subpackage <+: (selLibrary .internal).subpackage ∧
+    ("SetIamPolicy", Gen.internal) ∈ (selLibrary .internal).methods ∧ "SetIamPolicy" ∈ MixinApi.iam.methods := by
+  refine ⟨by simp, List.prefix_refl _, by simp [selLibrary], by decide⟩
+
+/-- the three fates of the API's own `SetIamPolicy` under the YAML of `cexYaml` (IAM listed; `GetIamPolicy` and
+`SetIamPolicy` ruled): public and internal make the mixins yield (all of them — `iam_override_drops_other_counterexample`),
+omitted leaves nothing to yield to and both mixins are selected. -/
+theorem own_rpc_fates_example :
+    keys (mixinApiMethods cexYaml ((⟨[selLibrary .pub]⟩ : SrcApi).generated.view [])) = [] ∧
+    keys (mixinApiMethods cexYaml ((⟨[selLibrary .internal]⟩ : SrcApi).generated.view [])) = [] ∧
+    keys (mixinApiMethods cexYaml ((⟨[selLibrary .omitted]⟩ : SrcApi).generated.view [])) = ["GetIamPolicy", "SetIamPolicy"] := by
+  decide
+
 /-! ## HTTP options -/
 
 theorem http_options_from_rule (nm : Names) (y : Yaml) (api : Api) (m : String) :
